@@ -39,6 +39,8 @@ fn main() {
         "replay" => cmd_replay(&args),
         "digest" => cmd_digest(&args),
         "show" => cmd_show(&args),
+        "scan" => cmd_scan(&args),
+        "exec" => cmd_exec(&args),
         _ => {
             eprintln!("usage: simctl check <ID> [--tier quick|thorough] | replay <file> | digest <ID> | show <ID> <index>");
             exit(2);
@@ -250,4 +252,49 @@ fn cmd_show(args: &[String]) {
     print!("{}", sc.to_text());
     let mut st = Stats::default();
     println!("# verdict: {:?}", p.check(&sc, &mut st));
+}
+
+/// prints the first scenarios whose verdict mentions `--grep <text>`
+fn cmd_scan(args: &[String]) {
+    let p = prop_or_die(args.get(2));
+    let count: u64 = arg_after(args, "--count").and_then(|s| s.parse().ok()).unwrap_or(20_000);
+    let grep = arg_after(args, "--grep").unwrap_or("Skip");
+    let max: usize = arg_after(args, "--max").and_then(|s| s.parse().ok()).unwrap_or(3);
+    let thorough = arg_after(args, "--tier") == Some("thorough");
+    let mut shown = 0;
+    for i in 0..count {
+        let sc = p.generate(simcore::rng::derive(verif_seed(), i), thorough);
+        let mut st = Stats::default();
+        let v = format!("{:?}", p.check(&sc, &mut st));
+        if v.contains(grep) {
+            println!("--- index {i}\n{}# verdict: {v}", sc.to_text());
+            shown += 1;
+            if shown >= max {
+                break;
+            }
+        }
+    }
+}
+
+/// ad-hoc execution: simctl exec --iface t0 --n 64 [--cap 0] [--mode run|process|permsg] '<stream with \\n escapes>'
+fn cmd_exec(args: &[String]) {
+    use simcore::exec::{Exec, Mode, Sink};
+    let name = arg_after(args, "--iface").unwrap_or("t0");
+    let iface = simcore::spec::IFACES.iter().find(|i| i.name == name).map(|i| i.index).unwrap_or(0);
+    let n: usize = arg_after(args, "--n").and_then(|s| s.parse().ok()).unwrap_or(64);
+    let cap: usize = arg_after(args, "--cap").and_then(|s| s.parse().ok()).unwrap_or(simcore::spec::IFACES[iface].caps[0]);
+    let text = args.last().cloned().unwrap_or_default();
+    let stream = text.replace("\\n", "\n").replace("\\r", "\r").into_bytes();
+    let mode = match arg_after(args, "--mode").unwrap_or("process") {
+        "run" => Mode::Run { sink: Sink::Sim(None), splits: vec![0, stream.len()] },
+        "permsg" => Mode::Run { sink: Sink::Sim(None), splits: props::newline_splits(&stream) },
+        _ => Mode::Process,
+    };
+    let mut ex = Exec::new(iface, cap, n, mode, stream);
+    if let Some(c) = arg_after(args, "--chunks") {
+        ex.chunks = c.split(',').filter_map(|x| x.parse().ok()).collect();
+    }
+    let o = dispatch::execute(&ex);
+    println!("{}", props::brief(&o));
+    println!("results={:?} remainders={:?} polls={} allocs={} unsupported={}", o.results, o.remainders, o.polls, o.lib_allocs, o.unsupported);
 }
